@@ -80,7 +80,7 @@ func (c customContainer) LayersDecoder(first gopacket.LayerType, df gopacket.Dec
 	return gopacket.LayersDecoder(c, first, df)
 }
 
-var c05ContainerNames = []string{"map", "sparse", "array", "custom"}
+var c05ContainerNames = []string{"map", "sparse", "array", "custom", "constructor-default", "add-decoding-layer"}
 
 func c05Container(kind int) gopacket.DecodingLayerContainer {
 	switch kind {
@@ -115,6 +115,33 @@ func c05MakeSet(types []gopacket.LayerType) *c05Set {
 }
 
 func (s *c05Set) parser(first gopacket.LayerType, kind int) *gopacket.DecodingLayerParser {
+	// kinds 4 and 5 use the parser's own default container the way most callers do: layers handed to the constructor, or
+	// added one by one afterwards (no SetDecodingLayerContainer call, which would rebuild the decoding function)
+	if kind >= 4 {
+		var ls []gopacket.DecodingLayer
+		if s.decoys {
+			for i, t := range s.types {
+				if i%2 == 0 {
+					if d := c05New(t); d != nil {
+						ls = append(ls, d)
+					}
+				}
+			}
+		}
+		for _, t := range s.types {
+			if d := s.objs[t]; d != nil {
+				ls = append(ls, d)
+			}
+		}
+		if kind == 4 {
+			return gopacket.NewDecodingLayerParser(first, ls...)
+		}
+		p := gopacket.NewDecodingLayerParser(first)
+		for _, d := range ls {
+			p.AddDecodingLayer(d)
+		}
+		return p
+	}
 	p := gopacket.NewDecodingLayerParser(first)
 	dlc := c05Container(kind)
 	if s.decoys {
@@ -329,7 +356,7 @@ func c05Parser(c *vlib.Ctx) {
 				c.Count("sets_with_replaced_registrations", 1)
 			}
 			var ref string
-			for kind := 0; kind < 4; kind++ {
+			for kind := 0; kind < len(c05ContainerNames); kind++ {
 				if kind > 0 {
 					// fresh objects per container: values left by the previous container's run must not stand in for
 					// values this container failed to deliver
@@ -392,7 +419,7 @@ func c05Stale(c *vlib.Ctx) {
 			continue
 		}
 		r := c.Rand(uint64(k))
-		kind := r.Intn(4)
+		kind := r.Intn(len(c05ContainerNames))
 		reused := c05MakeSet(c05Core)
 		rp := reused.parser(eth, kind)
 		for j := 0; j < chunk; j++ {
